@@ -415,6 +415,20 @@ def _gallia_where() -> str:
         return f"?({e})"
 
 
+def _trim(x: Any, depth: int = 0) -> Any:
+    """Samples are for reading: long strings / lists are abbreviated."""
+    if isinstance(x, str):
+        return x if len(x) <= 160 else x[:150] + f"...(+{len(x) - 150} chars)"
+    if isinstance(x, list):
+        out = [_trim(v, depth + 1) for v in x[:12]]
+        if len(x) > 12:
+            out.append(f"...(+{len(x) - 12} items)")
+        return out
+    if isinstance(x, dict):
+        return {k: _trim(v, depth + 1) for k, v in x.items()}
+    return x
+
+
 def _write_evidence(
     chk: Check,
     tier: str,
@@ -437,7 +451,7 @@ def _write_evidence(
             "evaluations": total["runs"],
             "distinct_nontrivial": len(total["nontrivial_shapes"]),
             "rule": chk.rule,
-            "samples": total["samples"] or [{"note": "no sample recorded"}],
+            "samples": _trim(total["samples"]) or [{"note": "no sample recorded"}],
             "exhaustive": False,
             "distinct_shapes": len(total["shapes"]),
             "simulated_seconds": round(total["vtime"], 3),
